@@ -478,6 +478,14 @@ def install(x, rkyv_table=None):
     mm[('DirEnt', 'file_type')] = lambda x, r, a, e: Ok(FileTypeV())
     mm[('FileTypeV', 'is_dir')] = lambda x, r, a, e: False
     mm[('PStr', 'join')] = lambda x, r, a, e: PStr(r.v.rstrip('/') + '/' + x.deref(a[0]).v)
+    def m_path_parent(x, r, a, e):
+        # std::path::Path::parent: None for the root and for the empty path, Some("") for a bare file name
+        v = r.v.rstrip('/') if r.v != '/' else r.v
+        if v in ('', '/'):
+            return NONE
+        return Some(PStr(v.rsplit('/', 1)[0] if '/' in v else ''))
+    mm[('PStr', 'parent')] = m_path_parent
+    mm[('PStr', 'file_name')] = lambda x, r, a, e: Some(PStr(r.v.rstrip('/').rsplit('/', 1)[-1])) if r.v.rstrip('/') else NONE
     mm[('PStr', 'exists')] = lambda x, r, a, e: (r.v in x.fs.files or r.v in x.fs.dirs)
 
     # ---- OpenOptions / file handles / mmap
